@@ -49,7 +49,7 @@ def vfWrong (skip : List String) (orderFull orderSkip : List String)
     glyphs alike (`sh`: point types, component bases and 2×2 parts, anchor names); `cert` ranks strictly decreasing along
     components and bounded by the number of names; non-singular components; closed contours; every glyph has sources on both
     sides of (or at) every source location; no glyph name twice in a glyph set -/
-def famCert (I : C09.Inst) (ms : C09.Masters) (cert : List (String × Nat)) : Bool :=
+def famCertBase (I : C09.Inst) (ms : C09.Masters) (cert : List (String × Nat)) : Bool :=
   let d := ms.getD I.defaultIdx []
   I.locs.length == ms.length && decide I.locs.Nodup &&
   decide (I.defaultIdx < ms.length) && I.locs[I.defaultIdx]? == some 0 &&
@@ -64,6 +64,14 @@ def famCert (I : C09.Inst) (ms : C09.Masters) (cert : List (String × Nat)) : Bo
     (C09.sourceLocs I ms e.1).any (fun l' => decide (l' ≤ l)) && (C09.sourceLocs I ms e.1).any (fun l' => decide (l ≤ l')))) &&
   ms.all (fun m => decide (m.map (·.1)).Nodup) &&
   cert.all (fun c => decide (c.2 ≤ (C09.allNames ms).length))
+
+/-- … and the model of the filter cannot fail on it (`Props/C13VFTotal.lean`: `skipFamily_ok`): in addition every glyph is
+    stored under its own name, and every component refers to a glyph the default source has (no dangling reference — the real
+    filter raises `MissingComponentError` on a dangling reference to a skipped name) -/
+def famCert (I : C09.Inst) (ms : C09.Masters) (cert : List (String × Nat)) : Bool :=
+  let d := ms.getD I.defaultIdx []
+  famCertBase I ms cert &&
+  ms.all (fun m => m.all (fun e => e.2.name == e.1 && e.2.comps.all (fun k => (d.get? k.base).isSome)))
 
 /-- `t` lies between the sources -/
 def inHull (I : C09.Inst) (t : Q) : Bool := I.locs.any (fun l => decide (l ≤ t)) && I.locs.any (fun l => decide (t ≤ l))
